@@ -277,7 +277,10 @@ func buildSig(n *node, r *rand.Rand) []byte {
 
 // ---------- generation
 
-var passes = []string{"-", "70617373", "c3a9c3a8e29c93", strings.Repeat("6c", 40), "70617374", "7061737320776f7264"}
+// (the last four: passphrases longer than any fixed-size buffer a key-derivation shortcut might use, equal in their first 64
+// bytes and different after)
+var passes = []string{"-", "70617373", "c3a9c3a8e29c93", strings.Repeat("6c", 40), "70617374", "7061737320776f7264",
+	strings.Repeat("61", 64), strings.Repeat("61", 64) + "62", strings.Repeat("61", 64) + "63", strings.Repeat("61", 100)}
 
 func (f *Fam) Gen(r *rand.Rand, i int) string {
 	if !f.started {
